@@ -1,9 +1,11 @@
-//! Stand-in for hashbrown::HashMap (API subset used by tinylfu-cached).
+//! Stand-in for hashbrown::HashMap / HashSet.
 //! Iteration / `retain` order is unspecified in the real crate (ahash RandomState); here it is a
 //! function of the run's salt and the content, so that it varies across runs and replays exactly.
+//! Everything else is std's HashMap (hashbrown is what std uses underneath), reached through Deref.
 use simsync::SaltedState;
-use std::collections::HashMap as StdMap;
+use std::collections::{HashMap as StdMap, HashSet as StdSet};
 use std::hash::Hash;
+use std::ops::{Deref, DerefMut};
 
 pub struct HashMap<K, V>(StdMap<K, V, SaltedState>);
 
@@ -11,37 +13,72 @@ impl<K: Hash + Eq, V> HashMap<K, V> {
     pub fn new() -> Self {
         HashMap(StdMap::with_hasher(SaltedState::from_run(0x68_6173_6862)))
     }
-    pub fn insert(&mut self, k: K, v: V) -> Option<V> {
-        self.0.insert(k, v)
-    }
-    pub fn remove(&mut self, k: &K) -> Option<V> {
-        self.0.remove(k)
-    }
-    pub fn get(&self, k: &K) -> Option<&V> {
-        self.0.get(k)
-    }
-    pub fn contains_key(&self, k: &K) -> bool {
-        self.0.contains_key(k)
-    }
-    pub fn clear(&mut self) {
-        self.0.clear()
-    }
-    pub fn len(&self) -> usize {
-        self.0.len()
-    }
-    pub fn is_empty(&self) -> bool {
-        self.0.is_empty()
-    }
-    pub fn retain<F: FnMut(&K, &mut V) -> bool>(&mut self, f: F) {
-        self.0.retain(f)
-    }
-    pub fn iter(&self) -> std::collections::hash_map::Iter<'_, K, V> {
-        self.0.iter()
+    pub fn with_capacity(n: usize) -> Self {
+        HashMap(StdMap::with_capacity_and_hasher(n, SaltedState::from_run(0x68_6173_6862)))
     }
 }
-
 impl<K: Hash + Eq, V> Default for HashMap<K, V> {
     fn default() -> Self {
         Self::new()
+    }
+}
+impl<K, V> Deref for HashMap<K, V> {
+    type Target = StdMap<K, V, SaltedState>;
+    fn deref(&self) -> &Self::Target {
+        &self.0
+    }
+}
+impl<K, V> DerefMut for HashMap<K, V> {
+    fn deref_mut(&mut self) -> &mut Self::Target {
+        &mut self.0
+    }
+}
+impl<K: Hash + Eq, V> IntoIterator for HashMap<K, V> {
+    type Item = (K, V);
+    type IntoIter = std::collections::hash_map::IntoIter<K, V>;
+    fn into_iter(self) -> Self::IntoIter {
+        self.0.into_iter()
+    }
+}
+impl<'a, K, V> IntoIterator for &'a HashMap<K, V> {
+    type Item = (&'a K, &'a V);
+    type IntoIter = std::collections::hash_map::Iter<'a, K, V>;
+    fn into_iter(self) -> Self::IntoIter {
+        self.0.iter()
+    }
+}
+impl<K: Hash + Eq, V> FromIterator<(K, V)> for HashMap<K, V> {
+    fn from_iter<I: IntoIterator<Item = (K, V)>>(iter: I) -> Self {
+        let mut m = HashMap::new();
+        m.0.extend(iter);
+        m
+    }
+}
+impl<K: std::fmt::Debug, V: std::fmt::Debug> std::fmt::Debug for HashMap<K, V> {
+    fn fmt(&self, f: &mut std::fmt::Formatter<'_>) -> std::fmt::Result {
+        self.0.fmt(f)
+    }
+}
+
+pub struct HashSet<T>(StdSet<T, SaltedState>);
+impl<T: Hash + Eq> HashSet<T> {
+    pub fn new() -> Self {
+        HashSet(StdSet::with_hasher(SaltedState::from_run(0x68_7365_7473)))
+    }
+}
+impl<T: Hash + Eq> Default for HashSet<T> {
+    fn default() -> Self {
+        Self::new()
+    }
+}
+impl<T> Deref for HashSet<T> {
+    type Target = StdSet<T, SaltedState>;
+    fn deref(&self) -> &Self::Target {
+        &self.0
+    }
+}
+impl<T> DerefMut for HashSet<T> {
+    fn deref_mut(&mut self) -> &mut Self::Target {
+        &mut self.0
     }
 }
